@@ -22,7 +22,7 @@ model M
   input Real c(fixed=true);
   output Real y;
 equation
-  der(x) = u + c;
+  der(x) = (u + c) / 3600.0;
   y = 2 * x;
 end M;
 """
@@ -35,7 +35,7 @@ model S
   output Real y;
   output Real x_out;
 equation
-  der(x) = u + c;
+  der(x) = (u + c) / 3600.0;
   y = 2 * x;
   x_out = x;
 end S;
@@ -83,20 +83,26 @@ def gen_instance(rng, sim=False):
     k0 = rng.choice([0, 0, rng.randrange(n - 1), rng.randrange(n - 1)])
     E = 1 if sim else rng.choice([1, 1, 2, 3])
     members = []
+    delta0 = rng.choice([0.0, 0.1, -0.2])
+    c0 = round(rng.uniform(-1, 1), 3)
     for m in range(E):
-        cvals = [round(rng.uniform(-1, 1) * 1e-3, 6) for _ in range(n)]
+        cvals = [round(rng.uniform(-1, 1), 3) for _ in range(n)]
+        if k0 > 0:
+            cvals[k0] = c0  # the control is shared: the initial derivative must be reachable for all members
         for i in range(k0):
             if rng.random() < 0.3:
                 cvals[i] = NAN  # gaps before t0 are allowed
         x0 = round(rng.uniform(-2, 2), 3)
         xvals = [round(rng.uniform(-2, 2), 3) if i < k0 else (x0 if i == k0 else NAN) for i in range(n)]
+        if k0 > 0:  # keep the initial derivative implied by the history within reach of the control bounds
+            xvals[k0 - 1] = round(x0 - delta0 * d / 3600.0, 6)
         s = {"c": cvals, "x": xvals}
         if sim:
-            s["u"] = [round(rng.uniform(-1, 1) * 1e-3, 6) for _ in range(n)]
+            s["u"] = [round(rng.uniform(-1, 1), 3) for _ in range(n)]
         members.append(s)
     if E > 1 and rng.random() < 0.3:
         members[-1] = {k: list(v) for k, v in members[0].items()}  # coincidence between members
-    umax = [rng.choice([5e-3, 2e-3, NAN]) for _ in range(n)] if (not sim and rng.random() < 0.6) else None
+    umax = [rng.choice([2.0, 1.5, NAN]) for _ in range(n)] if (not sim and rng.random() < 0.6) else None
     return {"dts": dts, "d": d, "k0": k0, "E": E, "members": members, "u_Max": umax}
 
 
@@ -223,7 +229,10 @@ def opt_classes():
 
         def objective(self, ensemble_member):
             xf = self.state_at("x", self.times()[-1], ensemble_member=ensemble_member)
-            return (xf - 1.0) ** 2 + 1e3 * self.integral("u", ensemble_member=ensemble_member) ** 2
+            return (xf - 1.0) ** 2
+
+        def path_objective(self, ensemble_member):
+            return 1e-2 * self.state("u") ** 2
 
         def compiler_options(self):
             o = super().compiler_options()
@@ -233,7 +242,7 @@ def opt_classes():
 
         def solver_options(self):
             o = super().solver_options()
-            o["ipopt"] = {"print_level": 0, "sb": "yes", "tol": 1e-10}
+            o["ipopt"] = {"print_level": 0, "sb": "yes"}
             o["print_time"] = 0
             return o
 
@@ -527,7 +536,7 @@ def stream_simulation(c, N, tmp):
         if abs(x[0] - s["x"][k0]) > 1e-9:
             c.fail("simulation: x(t0) is not the initial state at t0", case, x)
         for j in range(1, len(x)):
-            rhs = d * (s["u"][k0 + j] + s["c"][k0 + j])
+            rhs = d * (s["u"][k0 + j] + s["c"][k0 + j]) / 3600.0
             if abs((x[j] - x[j - 1]) - rhs) > 1e-7 * max(1.0, abs(rhs)):
                 c.fail("simulation: step %d is not driven by the inputs of its own stamp" % j, case,
                        {"x": x, "expected_increment": rhs})
@@ -538,4 +547,71 @@ def stream_simulation(c, N, tmp):
 
 
 def probes(c, tmp):
-    pass
+    """dedicated probes of findings that are not (yet) repaired"""
+    import random
+
+    from rtctools.optimization.timeseries import Timeseries  # noqa
+
+    rng = random.Random(12)
+    # --- C12-N2: NetCDFMixin export when the reference datetime is not the first import stamp
+    Csv, CsvEns, Pi, Nc = opt_classes()
+    mo = os.path.join(tmp, "mo_p")
+    os.makedirs(mo)
+    with open(os.path.join(mo, "M.mo"), "w") as f:
+        f.write(MO)
+    inst = gen_instance(rng)
+    while inst["k0"] != 1 or inst["E"] != 1:
+        inst = gen_instance(rng)
+    root = os.path.join(tmp, "p_nc")
+    os.makedirs(root)
+
+    def real_nc():
+        inp, out = make_nc_folder(root, inst)
+        p = Nc(model_name="M", model_folder=mo, input_folder=inp, output_folder=out)
+        p.t0_index = 1
+        with quiet_fd():
+            p.optimize()
+        ex, _ = read_nc_export(out, 1)
+        return ex[0][0]
+
+    r = call(real_nc)
+    exp = inst["dts"][1:]
+    c.known_probe("C12-N2", r[0] == "raise" or r[1] != exp,
+                  "NetCDFMixin export with t0 = second import stamp: stamps %s (rel. first import stamp) instead of %s"
+                  % ("raise" if r[0] == "raise" else [t - inst["dts"][0] for t in r[1]], [t - inst["dts"][0] for t in exp]))
+    shutil.rmtree(root, ignore_errors=True)
+    # --- F17: simulation PIMixin.set_timeseries when t0 is not the first stamp
+    SCsv, SPi = sim_classes()
+    mos = os.path.join(tmp, "mos_p")
+    os.makedirs(mos)
+    with open(os.path.join(mos, "S.mo"), "w") as f:
+        f.write(MO_SIM)
+    inst = gen_instance(rng, sim=True)
+    while inst["k0"] != 1:
+        inst = gen_instance(rng, sim=True)
+    inst["members"][0]["c"] = [0.0 if isnan(v) else v for v in inst["members"][0]["c"]]
+    root = os.path.join(tmp, "p_sp")
+    os.makedirs(root)
+    seen = {}
+
+    class SP2(SPi):
+        def pre(self):
+            super().pre()
+            n = len(self.times())
+            seen["r"] = call(self.set_timeseries, "u", np.arange(n) * 1.0)
+            seen["stored"] = call(lambda: [float(x) for x in self.get_timeseries("u")])
+
+    def real_sp():
+        inp, out = make_pi_folder(root, inst, sim=True)
+        p = SP2(model_name="S", model_folder=mos, input_folder=inp, output_folder=out)
+        with quiet_fd():
+            p.pre()
+
+    call(real_sp)
+    n_h = len(inst["dts"]) - 1
+    ok = seen.get("r", ("raise", "not run"))[0] == "ok" and seen["stored"][0] == "ok" and \
+        eqv(seen["stored"][1][1:], [float(j) for j in range(n_h)])
+    c.known_probe("F17", not ok,
+                  "simulation PIMixin.set_timeseries with values from forecastDate to endDate, t0 = second stamp: %s"
+                  % (seen.get("r", ("raise", "not run"))[1] if seen.get("r", ("raise",))[0] == "raise" else seen.get("stored")))
+    shutil.rmtree(root, ignore_errors=True)
